@@ -57,6 +57,7 @@ func (srv *Server) ListenAndServe() error {
 
 	ctx, cancel := context.WithCancel(context.Background())
 	srv.shutdown = cancel
+	closeCtx := ctx // canceled only by Close
 
 	if len(srv.listeners) == 0 {
 		return errors.New("no listeners found")
@@ -83,7 +84,7 @@ func (srv *Server) ListenAndServe() error {
 
 	err := eg.Wait()
 
-	if errors.Is(err, ctx.Err()) {
+	if closeCtx.Err() != nil || errors.Is(err, ctx.Err()) {
 		return ErrServerClosed
 	}
 	return err
@@ -98,6 +99,8 @@ func acceptTransports(ctx context.Context, listener TransportListener, c chan<- 
 		verifPoint("server.accept.enqueue")
 		select {
 		case <-ctx.Done():
+			// The transport will not be served, so release it
+			_ = transport.Close()
 			return ctx.Err()
 		case c <- transport:
 		}
@@ -187,8 +190,17 @@ func (srv *Server) Close() error {
 		}
 	}
 
-	close(srv.transportChan)
-	return multierr.Combine(errs...)
+	// The queue is not closed, since the accept goroutines may still be sending to it
+	// and the consumer could take a nil transport from a closed queue.
+	// The transports that were accepted but not yet served are released instead.
+	for {
+		select {
+		case t := <-srv.transportChan:
+			_ = t.Close()
+		default:
+			return multierr.Combine(errs...)
+		}
+	}
 }
 
 // ServerConfig define the configurations for a Server instance.
